@@ -5,7 +5,8 @@
  * larger than the output buffer.  The block processor / meta writer rely on
  * this: "no stored block is larger than its uncompressed size".
  *
- * real code: lib/sqfs/src/comp/lz4.c (KIND 1) or zstd.c (KIND 2), #included
+ * real code: lib/sqfs/src/comp/lz4.c (KIND 1), zstd.c (KIND 2), gzip.c (KIND 3,
+ *            incl. the strategy search) or xz.c (KIND 4, incl. the filter search), #included
  * env: contract stubs of the codec library entry points: they may return any
  *      value their documentation allows and write that many bytes.
  */
@@ -48,6 +49,65 @@ int LZ4_decompress_safe(const char *src, char *dst, int compressedSize, int dstC
 static lz4_compressor_t OBJ;
 #define COMP_FN lz4_comp_block
 #define UNCOMP_FN lz4_uncomp_block
+#elif KIND == 3
+#include <zlib.h>
+/* zlib model: Z_FINISH either completes (Z_STREAM_END, total_out = bytes
+   written <= avail_out), runs out of output space (Z_OK / Z_BUF_ERROR) or
+   fails; reset / params may fail */
+static int z_step(z_streamp s)
+{
+	unsigned r = ND_U32(); int k = ND_I32();
+	VP_ASSUME(r <= s->avail_out);
+	VP_ASSUME(k >= 0 && k <= 3);
+	for (int i = 0; i < CAP; ++i) if ((unsigned)i < r) s->next_out[i] = ND_U8();
+	s->total_out = r; s->avail_out -= r;
+	return k == 0 ? Z_STREAM_END : k == 1 ? Z_OK : k == 2 ? Z_BUF_ERROR : Z_DATA_ERROR;
+}
+int deflate(z_streamp s, int f) { VP_ASSERT(f == Z_FINISH, "one-shot block compression"); return z_step(s); }
+int inflate(z_streamp s, int f) { (void)f; return z_step(s); }
+int deflateReset(z_streamp s) { s->total_out = 0; return ND_BOOL() ? Z_STREAM_ERROR : Z_OK; }
+int inflateReset(z_streamp s) { s->total_out = 0; return ND_BOOL() ? Z_STREAM_ERROR : Z_OK; }
+int deflateParams(z_streamp s, int l, int st) { (void)s; (void)l; (void)st; return ND_BOOL() ? Z_STREAM_ERROR : Z_OK; }
+int deflateEnd(z_streamp s) { (void)s; return Z_OK; }
+int inflateEnd(z_streamp s) { (void)s; return Z_OK; }
+int deflateInit2_(z_streamp s, int l, int m, int w, int ml, int st, const char *v, int sz) { (void)s; (void)l; (void)m; (void)w; (void)ml; (void)st; (void)v; (void)sz; return Z_OK; }
+int inflateInit_(z_streamp s, const char *v, int sz) { (void)s; (void)v; (void)sz; return Z_OK; }
+#include "lib/sqfs/src/comp/gzip.c"
+static gzip_compressor_t OBJ;
+static sqfs_s32 gz_comp(sqfs_compressor_t *c, const sqfs_u8 *in, sqfs_u32 size, sqfs_u8 *out, sqfs_u32 outsize) { OBJ.compress = true; return gzip_do_block(c, in, size, out, outsize); }
+static sqfs_s32 gz_uncomp(sqfs_compressor_t *c, const sqfs_u8 *in, sqfs_u32 size, sqfs_u8 *out, sqfs_u32 outsize) { OBJ.compress = false; return gzip_do_block(c, in, size, out, outsize); }
+#define COMP_FN gz_comp
+#define UNCOMP_FN gz_uncomp
+#elif KIND == 4
+#include <lzma.h>
+lzma_bool lzma_lzma_preset(lzma_options_lzma *o, uint32_t p) { (void)p; memset(o, 0, sizeof(*o)); return ND_BOOL(); }
+lzma_ret lzma_stream_buffer_encode(lzma_filter *f, lzma_check c, const lzma_allocator *a, const uint8_t *in, size_t in_size, uint8_t *out, size_t *out_pos, size_t out_size)
+{
+	size_t r = ND_U64(); int k = ND_I32();
+	(void)f; (void)c; (void)a; (void)in; (void)in_size;
+	VP_ASSUME(k >= 0 && k <= 2);
+	if (k == 1) return LZMA_BUF_ERROR;
+	if (k == 2) return LZMA_MEM_ERROR;
+	VP_ASSUME(r <= out_size - *out_pos);
+	for (int i = 0; i < CAP; ++i) if ((size_t)i < r) out[*out_pos + i] = ND_U8();
+	*out_pos += r;
+	return LZMA_OK;
+}
+lzma_ret lzma_stream_buffer_decode(uint64_t *memlimit, uint32_t flags, const lzma_allocator *a, const uint8_t *in, size_t *in_pos, size_t in_size, uint8_t *out, size_t *out_pos, size_t out_size)
+{
+	size_t r = ND_U64(), c = ND_U64(); int k = ND_I32();
+	(void)memlimit; (void)flags; (void)a; (void)in;
+	VP_ASSUME(k >= 0 && k <= 2);
+	VP_ASSUME(r <= out_size - *out_pos && c <= in_size - *in_pos);
+	for (int i = 0; i < CAP; ++i) if ((size_t)i < r) out[*out_pos + i] = ND_U8();
+	*out_pos += r; *in_pos += c;
+	return k == 0 ? LZMA_OK : k == 1 ? LZMA_BUF_ERROR : LZMA_DATA_ERROR;
+}
+#include <string.h>
+#include "lib/sqfs/src/comp/xz.c"
+static xz_compressor_t OBJ;
+#define COMP_FN xz_comp_block
+#define UNCOMP_FN xz_uncomp_block
 #else
 #include <zstd.h>
 #include <zstd_errors.h>
@@ -93,6 +153,10 @@ void harness(void)
 		in[i] = ND_U8();
 #if KIND == 1
 	OBJ.high_compression = ND_BOOL();
+#elif KIND == 3
+	OBJ.opt.strategies = ND_U16() & SQFS_COMP_FLAG_GZIP_ALL; OBJ.opt.level = 9;
+#elif KIND == 4
+	OBJ.flags = ND_U16() & SQFS_COMP_FLAG_XZ_ALL; OBJ.level = 6;
 #endif
 	if (ND_BOOL()) {
 		r = COMP_FN((sqfs_compressor_t *)&OBJ, in, size, out, outsize);
